@@ -41,6 +41,10 @@ def judge(w, spec, plan, opts, mode, V, C, truth_mod):
     model = T.model
     rep = opts.get('repeat') or 1
     want = vworld.expected_tests(spec, opts)
+    for L in set(T.units.values()):
+        # layers of classes that are run as a unit
+        want.setdefault(vworld.full_layer_name(
+            spec, None if L == 'UNIT' else L), [])
     nimp = len(T.import_failures)
     info = w.info
     blocks = {}
@@ -209,6 +213,11 @@ def run_case(case):
                         'kind': 'pass', 'kinds_seq': rng.choice([
                             [k, 'pass'], ['pass', k], ['pass', k, 'pass'],
                             [k, 'pass', rng.choice(dyn)]])}
+    if not opts.get('repeat') and rng.random() < 0.25:
+        # classes run as a unit: class level errors and skips are result
+        # events of no test, they count all the same
+        gen.add_unit_nodes(rng, spec, kinds=('pass', 'pass', 'fail', 'error',
+                                              'skip_body'))
     viol = []
     counters = {}
 
